@@ -738,13 +738,40 @@ func (p *parsedClientStream) releaseExceptFirst() {
 	}
 }
 
+// eofTrackingReader remembers whether the underlying reader ran dry. The IPC
+// reader stops right behind the end-of-stream marker, so it only ever reaches
+// the physical end of the body when that marker is missing.
+type eofTrackingReader struct {
+	r      io.Reader
+	sawEOF bool
+}
+
+func (t *eofTrackingReader) Read(p []byte) (int, error) {
+	n, err := t.r.Read(p)
+	if err == io.EOF {
+		t.sawEOF = true
+	}
+	return n, err
+}
+
 func (c *HttpClient) parseIPCStream(raw *bytes.Reader, expected *arrow.Schema, tokenIsData bool) (*parsedClientStream, error) {
-	reader, err := ipc.NewReader(raw)
+	tracked := &eofTrackingReader{r: raw}
+	reader, err := ipc.NewReader(tracked)
 	if err != nil {
 		return nil, &RpcError{Type: "ProtocolError", Message: fmt.Sprintf("read Arrow IPC response: %v", err)}
 	}
 	defer reader.Release()
 	if expected != nil && !clientSchemasEqual(reader.Schema(), expected) {
+		// The server writes an error response with whatever schema it has at
+		// hand (a failing stream-init handler answers with the empty schema),
+		// so an exception envelope takes precedence over the schema check.
+		for reader.Next() {
+			record := reader.RecordBatch()
+			metadata := recordMetadata(record)
+			if record.NumRows() == 0 && metadata[MetaLogLevel] == string(LogException) {
+				return nil, rpcErrorFromMetadata(metadata)
+			}
+		}
 		return nil, &RpcError{Type: "TypeError", Message: fmt.Sprintf("response schema mismatch: expected %s, got %s", expected, reader.Schema())}
 	}
 	parsed := &parsedClientStream{}
@@ -786,6 +813,15 @@ func (c *HttpClient) parseIPCStream(raw *bytes.Reader, expected *arrow.Schema, t
 	if err := reader.Err(); err != nil {
 		parsed.release()
 		return nil, &RpcError{Type: "ProtocolError", Message: fmt.Sprintf("read Arrow IPC response batch: %v", err)}
+	}
+	if tracked.sawEOF {
+		// Arrow reads a body that simply stops at a message boundary as a
+		// complete stream. Every server closes its streams with the
+		// end-of-stream marker, so without it the response was cut short and
+		// whatever followed (batches, the continuation token, an exception
+		// envelope) is lost.
+		parsed.release()
+		return nil, &RpcError{Type: "ProtocolError", Message: "Arrow IPC response ended without an end-of-stream marker"}
 	}
 	return parsed, nil
 }
